@@ -17,8 +17,8 @@ from symrun.nums import And, Or, Not, same
 META = {
   "functions": ["lazy_misc.blocks", "lazy_misc.zero_pad", "Stream.blocks"],
   "bounds": {"quick": "symrun: input length 0..7, size 1..4, hop 1..6 (incl. hop None = size), any pad value, "
-                      "uninterpreted items; CrossHair: len<=6, size<=4, hop<=5, 60 s per condition",
-             "thorough": "symrun: length 0..10, size 1..5, hop 1..8; CrossHair: len<=7, size<=4, hop<=6, 300 s per condition"},
+                      "uninterpreted items; CrossHair: len<=5, size<=4, hop<=4, pad<=3, 300 s (wall) per condition",
+             "thorough": "symrun: length 0..10, size 1..5, hop 1..8; CrossHair: len<=7, size<=4, hop<=6, pad<=4, 900 s (wall) per condition"},
   "outside": "size=None (deque without maxlen), non-integer sizes/hops, lengths above the bound",
   "stubs": [],
   "assumptions": ["items are opaque objects: the block content is decided as identity of item terms (EUF)",
@@ -138,9 +138,13 @@ def extra(tier, repo):
   here = os.path.dirname(os.path.abspath(__file__))
   verif = os.path.dirname(here)
   py = os.path.join(verif, ".venv", "bin", "python")
-  tmo = 300 if tier == "thorough" else 60
+  # CrossHair's budgets are wall-clock: the quick bounds are sized to need ~10-15 s per condition on an idle core and
+  # get 20x that, so that a loaded machine does not turn "Confirmed" into "Not confirmed" (measured: len<=6, hop<=5,
+  # pad<=4 needs 50-75 s per condition, which was too close to the old 60 s cap)
+  tmo = 900 if tier == "thorough" else 300
+  big = tier == "thorough"
   env = dict(os.environ, PYTHONPATH=repo + os.pathsep + verif, PYTHONDONTWRITEBYTECODE="1", PYTHONWARNINGS="ignore",
-             CH_MAXLEN="7" if tier == "thorough" else "6", CH_MAXHOP="6" if tier == "thorough" else "5")
+             CH_MAXLEN="7" if big else "5", CH_MAXHOP="6" if big else "4", CH_MAXPAD="4" if big else "3")
   target = os.path.join(here, "ch_blocks.py")
   src = open(target).read()
   fns = re.findall(r"^def (check_\w+)\(", src, re.M)
